@@ -92,6 +92,14 @@ func vEnvInt(name string, def int) int {
 }
 
 // vSecret derives a 32-byte shared secret for the model value name (s1, s2, ...) and the run's seed.
+// vExact returns a copy of b whose capacity equals its length (no slack behind the bytes: slicing past the end panics
+// instead of silently reading stale bytes, as it would on an exact-size network buffer)
+func vExact(b []byte) []byte {
+	c := make([]byte, len(b))
+	copy(c, b)
+	return c[:len(c):len(c)]
+}
+
 func vSecret(name string) []byte {
 	h := sha256.Sum256([]byte(fmt.Sprintf("verif-secret-%s-%d", name, vSeed())))
 	return h[:]
